@@ -60,6 +60,7 @@ def run(ctx, report):
                    "non-trivial = >=1 row and (nulls or >=2 row groups or a non-default option); distinct by (dtype, variant, options)")
     own_append_case(ctx, report)
     tz_index_case(ctx, report)
+    foreign_fallback_case(ctx, report)
     nfiles = 20 if ctx.quick else 140
     reqs = []
     for fidx in range(nfiles):
@@ -365,6 +366,50 @@ def own_append_case(ctx, report):
         report.violation({**rec, "what": "; ".join(probs)[:400], "sig": "own-append"})
     report.case(("own-append",), True)
     shutil.rmtree(path, ignore_errors=True)
+
+
+def foreign_fallback_case(ctx, report):
+    """a dataset as another writer leaves it when its dictionary falls back: pandas metadata declares column c categorical, one row group
+    stores it dictionary-encoded, a later one PLAIN (v1 and v2 pages).  Whatever the handle promises for c, the read must deliver."""
+    import fastparquet
+    from fastparquet import writer
+    labels = ["ant", "bee", "cat", "dog"]
+    for version in (1, 2):
+        for fallback in (False, True):
+            d = os.path.join(ctx.workdir("c17"), "foreign_fb")
+            shutil.rmtree(d, ignore_errors=True)
+            os.makedirs(d)
+            rec = {"check": "predict", "variant": "foreign-dictionary-fallback", "page_version": version, "fallback": fallback, "kinds": ["cat_str"], "layout": "hive"}
+            ctx.crumb(rec)
+            old = writer.DATAPAGE_VERSION
+            probs = []
+            try:
+                writer.DATAPAGE_VERSION = version
+                a = pd.DataFrame({"c": pd.Categorical(["ant", "bee", "ant", "cat"], categories=labels), "x": np.arange(4)})
+                b = pd.DataFrame({"c": ["dog", "bee", "dog", "ant"] if fallback else pd.Categorical(["dog", "bee", "dog", "ant"], categories=labels),
+                                  "x": np.arange(4, 8)})
+                fa, fb = os.path.join(d, "part.0.parquet"), os.path.join(d, "part.1.parquet")
+                fastparquet.write(fa, a, has_nulls=True)
+                fastparquet.write(fb, b, has_nulls=True)
+                pf0 = fastparquet.ParquetFile([fa, fb])
+                pf0.fmd.created_by = b"parquet-cpp-arrow version 14.0.1"
+                writer.write_common_metadata(os.path.join(d, "_metadata"), pf0.fmd, no_row_groups=False)
+                pf = fastparquet.ParquetFile(d)
+                pred = dname(pf.dtypes["c"])
+                got = pf.to_pandas()
+                real = dname(got["c"].dtype)
+                if pred != real and not (pred == "object" and real in ("object", "str", "string")):
+                    probs.append(f"the handle reports c: {pred}, the read gives {real}")
+                if [str(v) for v in got["c"].tolist()] != ["ant", "bee", "ant", "cat", "dog", "bee", "dog", "ant"]:
+                    probs.append(f"values {got['c'].tolist()} differ from what the two files hold")
+            except Exception as e:  # noqa
+                probs.append("metadata query or read raised: " + canon_err(e) + " " + str(e)[:100])
+            finally:
+                writer.DATAPAGE_VERSION = old
+            if probs:
+                report.violation({**rec, "what": "; ".join(probs)[:400], "sig": f"foreign-fallback:v{version}:{fallback}"})
+            report.case(("foreign-fallback", version, fallback), True)
+            shutil.rmtree(d, ignore_errors=True)
 
 
 def tz_index_case(ctx, report):
